@@ -338,6 +338,29 @@ func runC11R2(c *Ctx) {
 							return true
 						}
 					}
+					// the same pair received as parameters of a helper: every caller passes the two results of one call
+					if sp, isP := src.(*ssa.Parameter); isP && f.Kind == "nil" {
+						if ep, isP2 := f.V.(*ssa.Parameter); isP2 && isErrorType(ep.Type()) && sp.Parent() == ep.Parent() {
+							i, j := paramIndex(fn, sp), paramIndex(fn, ep)
+							sites := p.callers(fn)
+							okAll := len(sites) > 0
+							for _, cs := range sites {
+								args := cs.Common().Args
+								if i >= len(args) || j >= len(args) {
+									okAll = false
+									continue
+								}
+								e1, ok1 := args[i].(*ssa.Extract)
+								e2, ok2 := args[j].(*ssa.Extract)
+								if !ok1 || !ok2 || e1.Tuple != e2.Tuple {
+									okAll = false
+								}
+							}
+							if okAll {
+								return true
+							}
+						}
+					}
 					return false
 				})
 				c.Check("C11-R2", "typed-nil-guard:"+fnName(fn), mi.Pos(), ok2,
